@@ -16,10 +16,11 @@ NestDoc == [t |-> "rec", v |-> <<
 BaseDocs == { [s |-> "Nest", av |-> NestDoc], [s |-> "IncTop", av |-> RecBase("IncTop")], [s |-> "Prims", av |-> RecBase("Prims")],
               [s |-> "Leaf", av |-> LB], [s |-> "DefContainers", av |-> RecBase("DefContainers")], [s |-> "CK", av |-> RecBase("CK")],
               [s |-> "DefOuter", av |-> [t |-> "rec", v |-> SelectSeq(RecBase("DefOuter").v, LAMBDA e : e.k # "oinner")]] }
-VARIABLES base, doc
-Init == base \in BaseDocs /\ doc = None
-Next == doc = None /\ doc' \in DocVariants([k |-> "ref", n |-> base.s], base.av) /\ UNCHANGED base
-Spec == Init /\ [][Next]_<<base, doc>>
+VARIABLES base, mdoc      \* mdoc: the marked document (removed fields carry NullV)
+doc == IF mdoc = None THEN None ELSE StripNulls(mdoc)
+Init == base \in BaseDocs /\ mdoc = None
+Next == mdoc = None /\ mdoc' \in DocVariants([k |-> "ref", n |-> base.s], base.av) /\ UNCHANGED base
+Spec == Init /\ [][Next]_<<base, mdoc>>
 Ty == [k |-> "ref", n |-> base.s]
 Set == doc # None
 \* the traversal reports exactly the declarative set, keeps its scope stack balanced and ends with an empty stack
@@ -27,6 +28,6 @@ AccountingExact == Set => LET r == Read(Ty, doc) IN r.missing = Missing(Ty, doc,
 \* defaulted and optional fields are never reported
 OnlyRequiredReported == Set => \A p \in Missing(Ty, doc, <<>>) : p[Len(p)].idx = 0
 SetSeq(S) == SetToSeq(S)
-Export == Set => PrintT(ToJson([schema |-> base.s, av |-> doc, canon |-> Canon(Ty, doc), json |-> JsonTree(doc), ror2 |-> EncRor2(JsonTree(doc)),
+Export == Set => PrintT(ToJson([schema |-> base.s, av |-> doc, canon |-> Canon(Ty, doc), json |-> JsonTree(doc), jsonNulled |-> JsonTree(mdoc), ror2 |-> EncRor2(JsonTree(doc)),
                                  missing |-> SetSeq(Missing(Ty, doc, <<>>))]))
 =============================================================================
